@@ -13,6 +13,8 @@ application it is started with by default, `KvStateMachine` (octopii/src/state_m
 * `SmSt.cmds` is a ghost: every command handed to the application, in order (what the "recording state machine
   wrapper" of the property observes).
 * a process restart is `{}`: the adapter and `KvStateMachine` live in memory only.
+* `failNext` models a node-local failure of the application (not a property of the command): the next command handed
+  to it fails, nothing is applied, the call returns the error.
 
 openraft's core (which entries are fed, and when) is not modelled: the theorems of Props/C19.lean take the entries
 fed to a node as a parameter.
@@ -63,6 +65,9 @@ structure SmSt where
   /-- ghost: every command handed to the application, in order -/
   cmds : List Cmd := []
   kv : AMap Nat Nat := AMap.empty
+  /-- armed by the environment: the application's next `apply` fails on THIS node only (disk full, I/O error of a
+  WAL-backed application state machine, a poisoned lock), without touching its state -/
+  failNext : Bool := false
   deriving DecidableEq, Repr, Inhabited
 
 /-- one iteration of the loop of `apply`: new state, the answer sent (if the entry has a responder), `false` = the
@@ -73,6 +78,7 @@ def applyOne (s : SmSt) (e : REntry) : SmSt × Option (Nat × Resp) × Bool :=
   | .blank => (s, if e.responder then some (e.index, .empty) else none, true)
   | .membership m => ({ s with lastMembership := (some (e.index, e.term), m) }, if e.responder then some (e.index, .empty) else none, true)
   | .normal c =>
+    if s.failNext then ({ s with failNext := false }, none, false) else
     let s := { s with cmds := s.cmds ++ [c] }
     match kvApply s.kv c with
     | some (kv, r) => ({ s with kv := kv }, if e.responder then some (e.index, r) else none, true)
